@@ -122,6 +122,30 @@ let heuristic_of_words (h : string) (rest : string list) : heuristic =
      | _ -> failwith "bad Static heuristic")
   | _ -> failwith ("unknown heuristic " ^ h)
 
+
+(* canonical dump of the bookkeeping tables, same format and hash as Bdd::verif_audit in the harness *)
+let fnv (l : string) : string =
+  let h = ref 0xcbf29ce484222325L in
+  String.iter (fun ch -> h := Int64.logxor !h (Int64.of_int (Char.code ch)); h := Int64.mul !h 0x100000001b3L) l;
+  Printf.sprintf "%016Lx" !h
+let audit_string (c : cfg) (st : store) : string =
+  let nodes = table_of st in
+  let sz = List.length nodes in
+  let uniq = List.sort compare (List.filter_map (fun (k, v) -> let (a, (b, d)) = k in Some (sn a ^ ":" ^ sn b ^ ":" ^ sn d ^ "=" ^ sn v)) (TM.elements st.uniq)) in
+  let l_uniq = "uniq " ^ String.concat ";" uniq in
+  let num_sort l = List.map string_of_int (List.sort compare (List.map int_of_n l)) in
+  let l_vd = if c.varlist then
+      ["vdeps " ^ String.concat ";" (List.init (int_of_n st.vsize) (fun h -> String.concat "," (num_sort (get_vd st (n_of_int h)))))] else [] in
+  let cnts = List.sort compare (List.map (fun (k, r) -> (int_of_n k, sn k ^ "=" ^ sn r.c_cm ^ "," ^ sn r.c_m ^ "," ^ sn r.c_pcm ^ "," ^ sn r.c_pm ^ "," ^ sn r.c_dp)) (NM.elements st.counts)) in
+  let l_cnt = "counts " ^ String.concat ";" (List.map snd cnts) in
+  let key3 (a, (b, d)) = (int_of_n a, int_of_n b, int_of_n d) in
+  let ic = List.sort compare (List.map (fun (k, v) -> (key3 k, int_of_n v)) (TM.elements st.itec)) in
+  let l_ic = "itec " ^ String.concat ";" (List.map (fun ((a, b, d), v) -> Printf.sprintf "%d,%d,%d=%d" a b d v) ic) in
+  let rc = List.sort compare (List.map (fun (k, v) -> (key3 k, int_of_n v)) (TM.elements st.resc)) in
+  let l_rc = "resc " ^ String.concat ";" (List.map (fun ((a, b, d), v) -> Printf.sprintf "%d,%d,%d=%d" a b d v) rc) in
+  ignore sz;
+  String.concat " " (List.map (fun l -> (List.hd (String.split_on_char ' ' l)) ^ "=" ^ fnv l) ([l_uniq] @ l_vd @ [l_cnt; l_ic; l_rc]))
+
 type adf_state = { mutable st : store; mutable ac : n list; names : string list; c : cfg }
 
 let run_adf id (lines : string list) =
@@ -191,7 +215,49 @@ let run_adf id (lines : string list) =
         List.iter (fun q ->
           let qid = "q" ^ string_of_int !k in incr k;
           match q with
+          | ["audit"] -> emit id qid ("audit " ^ audit_string a.c a.st)
+          | ["ops"; prog] ->
+            let regs = ref (Array.of_list a.ac) in
+            let res = ref [] in
+            List.iter (fun o ->
+              let w = Array.of_list (String.split_on_char ':' o) in
+              let r i = (!regs).(int_of_string w.(i) mod Array.length !regs) in
+              let (s, t) = (match w.(0) with
+                | "var" -> variable c a.st (n_of_string w.(1))
+                | "not" -> unopt (bnot c a.st (r 1))
+                | "and" -> unopt (band c a.st (r 1) (r 2))
+                | "or" -> unopt (bor c a.st (r 1) (r 2))
+                | "xor" -> unopt (bxor c a.st (r 1) (r 2))
+                | "iff" -> unopt (biff c a.st (r 1) (r 2))
+                | "imp" -> unopt (bimp c a.st (r 1) (r 2))
+                | "restrict" -> unopt (restrict c a.st (r 1) (n_of_string w.(2)) (w.(3) = "1"))
+                | _ -> failwith "bad op") in
+              a.st <- s; regs := Array.append !regs [| t |]; res := sn t :: !res) (String.split_on_char ';' prog);
+            emit id qid ("ops " ^ String.concat "," (List.rev !res))
+          | ["facets"] ->
+            let (s, g) = unopt (grounded c a.st a.ac) in a.st <- s;
+            let l = List.map (fun t ->
+              let (s2, (cm, m)) = models c a.st t false in a.st <- s2;
+              let nv = 2 * List.length (var_dependencies c a.st t) in
+              let two = n_of_int 2 in
+              let fc = if N.ltb two m then nv else 0 and cfc = if N.ltb two cm then nv else 0 in
+              sn cm ^ "/" ^ sn m ^ ":" ^ string_of_int cfc ^ ":" ^ string_of_int fc) g in
+            emit id qid ("facets " ^ String.concat " " l)
           | ["validate"] -> emit id qid ("validate " ^ validate ())
+          | ["roundtrip"; how] ->
+            let before = table_of a.st in
+            let st' = (match how with
+                       | "json" -> fix_import c (import_raw before)
+                       | "jsonnofix" -> import_raw before
+                       | _ -> from_nodes c before) in
+            let eqtab = (table_of st' = before) in
+            let uniq_eq = List.for_all (fun nd -> nd.nv = n_of_string "18446744073709551614" || nd.nv = n_of_string "18446744073709551615"
+                                                  || TM.find (nd.nv, (nd.nlo, nd.nhi)) st'.uniq = TM.find (nd.nv, (nd.nlo, nd.nhi)) a.st.uniq) before in
+            let vd_eq = List.for_all (fun h -> List.sort compare (get_vd st' (n_of_int h)) = List.sort compare (get_vd a.st (n_of_int h)))
+                          (List.init (List.length before) (fun i -> i)) in
+            emit id qid ("roundtrip " ^ how ^ " nodes_equal=" ^ (if eqtab then "1" else "0") ^ " ac_equal=1"
+                         ^ " uniq_equal=" ^ (if uniq_eq then "1" else "0") ^ " vdeps_equal=" ^ (if vd_eq then "1" else "0"));
+            a.st <- st'
           | ["grounded"] when is_bio -> let (s, g) = unopt (bio_grounded c a.st a.ac) in a.st <- s; emit id qid ("grounded " ^ interp_string g ^ " " ^ handles_string g)
           | ["complete"] when is_bio -> let (s, l) = unopt (bio_complete c a.st a.ac) in a.st <- s; emit id qid ("complete " ^ interps_string l)
           | ["stable"] when is_bio -> let (s, l) = unopt (bio_stable c a.st a.ac) in a.st <- s; emit id qid ("stable " ^ interps_string l)
@@ -313,6 +379,56 @@ let run_leaf id (lines : string list) =
     | [] -> ()
     | _ -> failwith ("bad leaf line " ^ line)) lines
 
+
+(* ---------- streaming mirror (C19) ---------- *)
+let node_list_string (st : store) = table_string st
+let run_stream id (lines : string list) =
+  let c = cfg_of_string "a1v1" in
+  let producer = ref (set_outq (init c) (Some [])) in
+  let relay = ref (set_outq (init c) (Some [])) in
+  let receiver = ref (init c) in
+  let sent_p = ref 0 and sent_r = ref 0 in            (* how many of outq have been taken over by the harness channel *)
+  let pend1 = ref [] and inq1 = ref [] and pend2 = ref [] and inq2 = ref [] in
+  let regs = ref [||] in
+  let push h = regs := Array.append !regs [| h |] in
+  let reg w = (!regs).(int_of_string w) in
+  let k = ref 0 in
+  let qid () = let q = "q" ^ string_of_int !k in incr k; q in
+  let sync_out (st : store ref) (sent : int ref) (pend : node list ref) =
+    match !st.outq with
+    | Some q -> let all = List.rev q in
+      let fresh = List.filteri (fun i _ -> i >= !sent) all in
+      sent := List.length all; pend := !pend @ fresh
+    | None -> () in
+  let rec take j l = if j = 0 then ([], l) else match l with [] -> ([], []) | x :: r -> let (a, b) = take (j - 1) r in (x :: a, b) in
+  (try
+    List.iter (fun line ->
+      let setres (s, h) = producer := s; push h; sync_out producer sent_p pend1 in
+      match words line with
+      | ["var"; v] -> setres (variable c !producer (n_of_string v))
+      | ["const"; b] -> push (constant (b = "1"))
+      | ["not"; a] -> setres (unopt (bnot c !producer (reg a)))
+      | ["and"; a; b] -> setres (unopt (band c !producer (reg a) (reg b)))
+      | ["or"; a; b] -> setres (unopt (bor c !producer (reg a) (reg b)))
+      | ["imp"; a; b] -> setres (unopt (bimp c !producer (reg a) (reg b)))
+      | ["iff"; a; b] -> setres (unopt (biff c !producer (reg a) (reg b)))
+      | ["xor"; a; b] -> setres (unopt (bxor c !producer (reg a) (reg b)))
+      | ["restrict"; a; v; b] -> setres (unopt (restrict c !producer (reg a) (n_of_string v) (b = "1")))
+      | ["pump1"; j] -> let (a, b) = take (int_of_string j) !pend1 in inq1 := !inq1 @ a; pend1 := b
+      | ["pump2"; j] -> let (a, b) = take (int_of_string j) !pend2 in inq2 := !inq2 @ a; pend2 := b
+      | ["poll1"; t] ->
+        let ((s, rest), f) = recv !relay true !inq1 (n_of_string t) in
+        relay := s; inq1 := rest; sync_out relay sent_r pend2;
+        emit id (qid ()) ("poll1 " ^ (if f then "1" else "0") ^ " " ^ sn s.size)
+      | ["poll2"; t] ->
+        let ((s, rest), f) = recv !receiver true !inq2 (n_of_string t) in
+        receiver := s; inq2 := rest;
+        emit id (qid ()) ("poll2 " ^ (if f then "1" else "0") ^ " " ^ sn s.size)
+      | ["tables"] -> emit id (qid ()) ("tables " ^ node_list_string !producer ^ " | " ^ node_list_string !relay ^ " | " ^ node_list_string !receiver)
+      | [] -> ()
+      | _ -> failwith ("bad stream line: " ^ line)) lines
+  with NoFuel -> emit id "NOFUEL" "")
+
 (* ---------- main loop ---------- *)
 let () =
   let ic = if Array.length Sys.argv > 1 then open_in Sys.argv.(1) else stdin in
@@ -334,6 +450,7 @@ let () =
               | "PARSE" -> run_parse id lines
               | "NG" -> run_ng id lines
               | "LEAF" -> run_leaf id lines
+              | "STREAM" -> run_stream id lines
               | _ -> failwith ("unknown case kind " ^ kind))
            with Stack_overflow -> emit id "STACKOVERFLOW" ""
               | e -> emit id "EXN" (Printexc.to_string e));
